@@ -1,0 +1,97 @@
+//go:build verif
+
+package avfs
+
+import "sync"
+
+// VerifSched is implemented by the deterministic-simulation scheduler of the verification harness.
+// It is consulted before every acquisition and after every release of a VerifRWMutex.
+type VerifSched interface {
+	Acquire(m *VerifRWMutex, write bool)
+	Release(m *VerifRWMutex, write bool)
+	BatchBegin()
+	BatchEnd()
+	TempName(name, prefix, suffix string) string
+}
+
+// VerifHook is set once, before any file system is used, by the verification harness.
+// It is nil in every other program, including programs built with the verif tag.
+var VerifHook VerifSched //nolint:gochecknoglobals // verification seam.
+
+// VerifRWMutex is the RWMutex used by the in-memory file systems and identity manager
+// when built with the verif tag. It behaves as sync.RWMutex and announces every operation to VerifHook.
+type VerifRWMutex struct {
+	mu sync.RWMutex
+	// Slot is owned by the scheduler (index of its model of this mutex, 0 = unknown).
+	Slot uint32
+}
+
+// Lock locks m for writing.
+func (m *VerifRWMutex) Lock() {
+	if h := VerifHook; h != nil {
+		h.Acquire(m, true)
+	}
+
+	m.mu.Lock()
+}
+
+// Unlock unlocks m for writing.
+func (m *VerifRWMutex) Unlock() {
+	m.mu.Unlock()
+
+	if h := VerifHook; h != nil {
+		h.Release(m, true)
+	}
+}
+
+// RLock locks m for reading.
+func (m *VerifRWMutex) RLock() {
+	if h := VerifHook; h != nil {
+		h.Acquire(m, false)
+	}
+
+	m.mu.RLock()
+}
+
+// RUnlock undoes a single RLock call.
+func (m *VerifRWMutex) RUnlock() {
+	m.mu.RUnlock()
+
+	if h := VerifHook; h != nil {
+		h.Release(m, false)
+	}
+}
+
+// TryLockReal reports whether the underlying mutex could be write-locked right now (harness cross-check).
+func (m *VerifRWMutex) TryLockReal() bool {
+	if m.mu.TryLock() {
+		m.mu.Unlock()
+
+		return true
+	}
+
+	return false
+}
+
+// VerifBatchBegin marks the start of a loop that takes locks in Go map iteration order.
+func VerifBatchBegin() {
+	if h := VerifHook; h != nil {
+		h.BatchBegin()
+	}
+}
+
+// VerifBatchEnd marks the end of a loop that takes locks in Go map iteration order.
+func VerifBatchEnd() {
+	if h := VerifHook; h != nil {
+		h.BatchEnd()
+	}
+}
+
+// verifTempName lets the simulator choose the random part of a temporary name.
+func verifTempName(name, prefix, suffix string) string {
+	if h := VerifHook; h != nil {
+		return h.TempName(name, prefix, suffix)
+	}
+
+	return name
+}
